@@ -486,10 +486,17 @@ example : (readerSites { sqfs2tar := false, op := .unpack, unpackRoot := true })
 example : (runReader { sqfs2tar := false, op := .cat, nsplice := 3 } (single 14)).trace.failed = some (.rSplice 1) := by decide
 
 /-- hypothesis of `blockproc_error_propagates` is satisfiable: the inode allocation of `begin_file` fails -/
-example : (BP.runCall .current 4 (.beginFile true false) {} [true]).1.faulted = true := by decide
+example : (BP.runCall .current 4 (.beginFile true false false false) {} [true]).1.faulted = true := by decide
 /-- … and with a processor that already holds a full block, the pool submit inside `append` fails -/
 example : (BP.runCall .current 4 (.append 1 false false)
     { beginCalled := true, cur := some { size := 4 }, backlog := 1 } [true]).1 =
     ⟨false, some .fault, true, false, [.submit]⟩ := by decide
+/-- the last block of a file whose blocks duplicate earlier ones: read-back compare and truncate are primitives
+    of the call that dequeues it; a failing truncate is reported -/
+example : (BP.runCall .current 4 .sync
+    { backlog := 1, pool := [{ size := 0, last := true, dupBlocks := true }] } [false, false, true]).1 =
+    ⟨false, some .fault, true, false, [.poolDequeue, .dedupRead, .dedupTruncate]⟩ := by decide
+/-- `append` of 0 bytes without a current block: the C code dereferences NULL (frontend.c:171); the model says so -/
+example : (BP.runCall .current 4 (.append 0 false false) { beginCalled := true } []).1.err = some .nullDeref := by decide
 
 end Sqfs.C13
